@@ -267,7 +267,7 @@ class C03(Prop):
         return None
 
     def sweeps(self, tier):
-        return [["v1tokens", 5 if tier == "quick" else 6]]
+        return [["v1tokens", 5 if tier == "quick" else 6], ["v1lines", 1 if tier == "quick" else 2]]
 
 
 class C04(Prop):
@@ -849,7 +849,7 @@ class C18(Prop):
         return op_bytes(op)[:50] if r["k"] == "err" else None
 
     def sweeps(self, tier):
-        return [["v1tokens", 5 if tier == "quick" else 6]]
+        return [["v1tokens", 5 if tier == "quick" else 6], ["v1lines", 1 if tier == "quick" else 2]]
 
 
 class C19(Prop):
